@@ -305,6 +305,21 @@ def body_c11(tier, seed, rep, only_prop=False, scale=1):
                 with time_limit(60):
                     tl = TG.construct(spec, backend)
                     doc = TG.export(tl)
+                    if k % 12 == 0:
+                        # export INTO A FILE (the other documented way to export): the file holds the document that is returned
+                        import tempfile, os
+                        fd, path = tempfile.mkstemp(suffix=".svg" if backend == "svg" else ".tex")
+                        os.close(fd)
+                        try:
+                            doc2 = tl.export(path) if backend == "svg" else tl.export(path, build_pdf=False)
+                            with open(path, "rb") as fh:
+                                written = fh.read()
+                            rep.count("export-to-file")
+                            same = (written == doc2) if isinstance(doc2, bytes) else (written.decode("utf-8") == doc2)
+                            if not same or doc2 != doc:
+                                rep.prop_fail.append(("%s export into a file: the file / the returned document differ from the plain export" % backend, {"case": {"kind": "timeline", "spec": spec, "backend": backend}}))
+                        finally:
+                            os.unlink(path)
                 if degenerate and spec["kind"] != "time":
                     g = parse_svg(doc) if backend == "svg" else parse_tikz(doc)
                     dots, _ = along(tl, g["dots"])
